@@ -145,6 +145,20 @@ CLAIMED = {
         note=COMMON_NOTE + "Symbolic face indices are resolved in the ghost table by forking over its keys.",
         technique="contract-based deductive verification: symbolic execution of the real function + z3 VCs (accept <=> reciprocal)",
     ),
+    "C20": dict(
+        category="proof",
+        text=("Exceptional postconditions proved by symbolic execution of the real functions: on 2 grid layouts, for each catalogued "
+              "valid call (diff/interp/min/max/cumsum/derivative/integrate/average/cumint, constructor, apply_as_grid_ufunc with 1-2 "
+              "inputs, transform linear/conservative) and every single ill-posing edit from the classes of the statement (axis the "
+              "grid lacks, data lacking/having two dims of the axis, shift to the same / an absent position / face to face, unknown "
+              "position or boundary word per call and at construction, non-numeric fill value, periodic-axis transform, "
+              "non-monotonic or repeated conservative bins, conservative without outer, ufunc inputs on wrong positions / in wrong "
+              "number) the call raises on EVERY path for all sizes and data, while the unedited call returns normally."),
+        design_ref="DESIGN.md 7/C20",
+        note=COMMON_NOTE + "Catalogue of calls and edits is an enumeration. Transform kernels are stubbed by uninterpreted recorders "
+             "(their contracts are C07/C08). A per-call boundary word never used because all widths are zero is not required to raise.",
+        technique="contract-based deductive verification: exceptional postconditions (raises-clauses) by symbolic execution of the real functions",
+    ),
 }
 
 NOT_YET = {}
